@@ -16,15 +16,17 @@ IMPORTS = "From Verif Require Import C01.VyCore C01.VyShow.\n"
 class Call:
     """one external call.  args: python values; for primitive parameter types an int is the raw
     ABI word (so out-of-range words can be sent); for composite types a python value tree."""
-    def __init__(self, fidx, args, sender=DEPLOYER, value=0):
+    def __init__(self, fidx, args, sender=DEPLOYER, value=0, given=None):
         self.fidx, self.args, self.sender, self.value = fidx, list(args), sender, value
+        self.given = given       # number of arguments actually sent (the rest are the function's defaults); None = all
+        self.deploy = False      # the constructor "call": performed by deploying with these arguments
 
     def __repr__(self):
         return f"Call(f={self.fidx}, args={self.args}, sender={self.sender}, value={self.value})"
 
 
 def is_prim(t):
-    return t[0] in ("int", "bool", "addr")
+    return t[0] in ("int", "bool", "addr", "flag")
 
 
 def ceil32(n):
@@ -111,16 +113,23 @@ def enc_val(v, t):
 
 
 def calldata(fun, call):
-    sel = keccak(fun.abi_sig().encode())[:4]
-    return sel + enc_tuple(call.args, [t for _, t in fun.params])
+    g = getattr(call, "given", None)
+    n = len(fun.params) if g is None else g
+    sel = keccak(fun.abi_sig(n).encode())[:4]
+    return sel + enc_tuple(call.args[:n], [t for _, t in fun.params][:n])
+
+
+def fun_of(prog, call):
+    return prog.ctor if getattr(call, "deploy", False) else prog.exts[call.fidx]
 
 
 def call_coq(prog, call):
-    fun = prog.exts[call.fidx]
+    fun = fun_of(prog, call)
     args = []
     for a, (_, t) in zip(call.args, fun.params):
         args.append(word_to_model(a, t) if is_prim(t) else tree_to_model(a, t))
-    return f"(mkCall {call.fidx} {coqrun.hexlit(int(call.sender, 16))} {coqrun.hexlit(call.value)} [{'; '.join(args)}])"
+    idx = len(prog.exts) if getattr(call, "deploy", False) else call.fidx     # the constructor is the last entry of p_ext
+    return f"(mkCall {idx} {coqrun.hexlit(int(call.sender, 16))} {coqrun.hexlit(call.value)} [{'; '.join(args)}])"
 
 
 def run_expr(prog, calls, full=False):
@@ -305,19 +314,26 @@ def check_target_opcodes(out, evm):
 
 
 class Deployed:
-    def __init__(self, prog, cfg, src=None):
+    def __init__(self, prog, cfg, src=None, ctor_call=None):
         self.prog, self.cfg = prog, cfg
         self.src = src if src is not None else prog.vy()
         # no `abi` output: under experimental_codegen it runs the legacy generator as well (gas estimates)
         self.out = compile_src(self.src, cfg, formats=("bytecode", "layout", "asm", "asm_runtime"))
         check_target_opcodes(self.out, cfg.evm)
         self.chain = Chain(cfg.evm)
-        self.addr = self.chain.deploy(bytes.fromhex(self.out["bytecode"][2:]))
-        if self.addr is None:
+        init = bytes.fromhex(self.out["bytecode"][2:])
+        if ctor_call is not None:
+            init += enc_tuple(ctor_call.args, [t for _, t in prog.ctor.params])
+        self.addr = self.chain.deploy(init, sender=ctor_call.sender if ctor_call is not None else DEPLOYER)
+        if self.addr is None and ctor_call is None:
             raise RuntimeError("deployment reverted")
         self.layout = self.out["layout"].get("storage_layout", {})
 
     def call(self, call):
+        if getattr(call, "deploy", False):
+            return (self.addr is not None, b"", [])
+        if self.addr is None:
+            return (False, b"", [])
         fun = self.prog.exts[call.fidx]
         r = self.chain.call(self.addr, calldata(fun, call), value=call.value, sender=call.sender)
         try:
@@ -333,12 +349,15 @@ class Deployed:
     def raw_storage(self, model_final=None):
         out = {}
         for name, t in self.prog.sto:
+            if name in self.prog.imm or self.addr is None:
+                out[name] = None          # immutables live in the code, not in storage
+                continue
             ent = self.layout[name]
             out[name] = [self.chain.storage(self.addr, ent["slot"] + i) for i in range(n_slots(t))]
         maps = []
         if model_final is not None:
             for (name, t), v in zip(self.prog.sto, model_final):
-                if t[0] == "map":
+                if t[0] == "map" and self.addr is not None:
                     for slot, exp in map_slots(self.layout[name]["slot"], v, t):
                         maps.append((name, slot, exp, self.chain.storage(self.addr, slot)))
         out["$maps"] = maps
@@ -348,7 +367,8 @@ class Deployed:
 def observe(prog, cfg, calls, src=None, model_final=None):
     """-> (results [(ok, out, logs)], raw storage dict).  model_final (the model's final storage values) is only used to
     know WHICH HashMap element slots to read back (keys the source program wrote)."""
-    d = Deployed(prog, cfg, src)
+    ctor_call = calls[0] if (calls and getattr(calls[0], "deploy", False)) else None
+    d = Deployed(prog, cfg, src, ctor_call)
     res = [d.call(c) for c in calls]
     return res, d.raw_storage(model_final)
 
@@ -368,7 +388,7 @@ def compare_all(prog, calls, model, obs, unordered=(), first_only=False):
     for i, (m, o, c) in enumerate(zip(mres, ores, calls)):
         if out and first_only:
             return out
-        fun = prog.exts[c.fidx]
+        fun = fun_of(prog, c)
         ok, rdata, logs = o
         if m[0] == "error":
             out.append({"call": i, "what": "model-error", "model": m[1]})
@@ -403,6 +423,8 @@ def compare_all(prog, calls, model, obs, unordered=(), first_only=False):
     for (name, t), v in zip(prog.sto, mfin):
         exp = flat_slots(v, t)
         got = osto[name]
+        if got is None:
+            continue
         for k, (e, g) in enumerate(zip(exp, got)):
             if isinstance(e, tuple):       # ("prefix", bytes): only the leading bytes of the word are determined
                 if g.to_bytes(32, "big")[:len(e[1])] != e[1]:
